@@ -31,6 +31,8 @@ def scan(spec, tr):
             continue
         trig = None
         if k == 'interrupt' and e[4] and 'K2' in active:
+            # (a narrower trigger - only the later restart of the still blocked customer - was tried: the tracker, the on-duty
+            # count and the clock are already wrong at / right after the interruption itself, so the cut stays here)
             trig = 'K2'
         elif k == 'reroute_to' and e[4] == e[2] and 'K19' in active:
             trig = 'K19'
